@@ -335,10 +335,8 @@ func (in *Interp) equal(t types.Type, x, y Value) *Term {
 		if a.t == nil || b.t == nil {
 			return ts.Bool(a.t == nil && b.t == nil)
 		}
-		_, na := a.t.(*noopType)
-		_, nb := b.t.(*noopType)
-		if na || nb {
-			return ts.Bool(na && nb && a.t == b.t)
+		if isPseudoType(a.t) || isPseudoType(b.t) {
+			return ts.Bool(a.t == b.t)
 		}
 		if !types.Identical(a.t, b.t) {
 			return ts.False
@@ -566,6 +564,9 @@ func (in *Interp) bytesToStr(v *SliceV) *Str {
 	b := make([]*Term, max)
 	for i := 0; i < max; i++ {
 		e := in.elem(v, i)
+		if e == nil {
+			e = in.ts.BV(8, 0) // never-written slot beyond every feasible length
+		}
 		t, ok := e.(*Term)
 		if !ok {
 			abortf("[]byte element is %s", in.show(e))
@@ -1091,6 +1092,11 @@ func (in *Interp) typeAssert(ins *ssa.TypeAssert, x Value) Value {
 		var v Value
 		if nt, isNoop := itf.t.(*noopType); isNoop {
 			if toIface && types.Identical(nt.iface, at) {
+				match = true
+				v = itf
+			}
+		} else if _, isRefl := itf.t.(*reflType); isRefl {
+			if toIface {
 				match = true
 				v = itf
 			}
